@@ -7,7 +7,7 @@ from pymodbus.framer.binary_framer import ModbusBinaryFramer
 from pymodbus.framer.tls_framer import ModbusTlsFramer
 
 from harness import pdus, msggen
-from harness.pyutil import errkind
+from harness.pyutil import errkind, debug_logging
 
 FRAMERS = {'tcp': ModbusSocketFramer, 'rtu': ModbusRtuFramer, 'ascii': ModbusAsciiFramer,
            'binary': ModbusBinaryFramer, 'tls': ModbusTlsFramer}
@@ -28,23 +28,33 @@ def real_feed(name, direction, units, single, chunks, framer=None):
     f = framer or mk_framer(name, direction)
     tj = to_json(direction)
     calls = []
-    for c in chunks:
-        evs = []
+    # one history in five runs with DEBUG logging switched on (decided by the history itself, so that a replay does the same)
+    debug = sum(len(c) for c in chunks) % 5 == 0
+    with debug_logging(debug):
+        for c in chunks:
+            evs = []
 
-        def cb(m):
-            evs.append({'msg': tj(m), 'uid': m.unit_id, 'tid': m.transaction_id, 'pid': m.protocol_id})
-        try:
-            f.processIncomingPacket(bytes(c), cb, list(units), single=single)
-        except Exception as e:  # noqa
-            evs.append({'raised': errkind(e)})
-        calls.append({'events': evs, 'buffered': len(f._buffer)})
+            def cb(m):
+                evs.append({'msg': tj(m), 'uid': m.unit_id, 'tid': m.transaction_id, 'pid': m.protocol_id})
+            try:
+                f.processIncomingPacket(bytes(c), cb, list(units), single=single)
+            except Exception as e:  # noqa
+                evs.append({'raised': errkind(e)})
+            calls.append({'events': evs, 'buffered': len(f._buffer)})
     return calls
 
 
-def real_build(name, direction, m, uid, tid, pid):
-    """framer.buildPacket of the real message object described by m (direction 'req' | 'resp')"""
+def real_build(name, direction, m, uid, tid, pid, warm=()):
+    """framer.buildPacket of the real message object described by m (direction 'req' | 'resp'); `warm`: framings the SAME object
+    is built for first (a message sent over several links, logged and then sent, sent again)"""
     obj = (msggen.mk_req if direction == 'req' else msggen.mk_resp)(m)
     obj.unit_id, obj.transaction_id, obj.protocol_id = uid, tid, pid
+    for w in warm:
+        try:
+            FRAMERS[w](None, None).buildPacket(obj)
+        except Exception:  # noqa
+            pass
+        obj.unit_id, obj.transaction_id, obj.protocol_id = uid, tid, pid
     f = FRAMERS[name](None, None)
     try:
         return list(f.buildPacket(obj))
